@@ -1529,7 +1529,7 @@ func (c *Conn) ApiVersions() ([]ApiVersion, error) {
 	}
 	defer lock.Unlock()
 	if verifOn {
-		defer verifEvent("C.Body", c, id, "unlock")
+		defer func() { verifEvent("C.Body", c, id, verifMuxErr(err)) }()
 	}
 
 	r, size, err := c.readApiVersions(size)
